@@ -68,6 +68,16 @@ CLAIMED = {
    note='Trusted: Coq kernel; extraction + driver; hand-written Model/Dotdict.v tied by the differential run; index expressions other than name[<digits>] and '
         'object aliasing ("copies are structurally independent") are outside the model - aliasing is checked on the implementation only.',
    technique='Coq proof (string lemmas for _resolve, induction over path components / tree depth) + exhaustive and random correspondence', design='6 C16'),
+
+ 'C01': dict(
+   text='A reference EtherNet/IP CIP codec is assembled in Coq from verified format combinators (Base/Fmt.v): every format carries its encoder, strict decoder and '
+        'the proofs dec(enc m ++ tl) = (m, tl) and dec bs = (m, tl) -> bs = enc m ++ tl; Properties/C01.v projects them for the whole frame (header, commands, CPF '
+        'items, Unconnected Send, every Logix-dialect request/reply, Multiple Service Packet with its offset table), Connection Manager services, EPATH / route '
+        'path, status, typed data, scalars, strings, and proves the NCP encode/decode round trip.  Tie: for generated messages cpppo produce must equal the '
+        'reference encoder and cpppo parse must recover the reference decoder\'s fields; parse(produce(m)) = m is judged on the implementation alone.',
+   note='Trusted: Coq kernel; extraction + driver; Python adapters dotdict<->AST (props/codec_common.py); the reference codec is written from the layout tables and shares '
+        'no code with cpppo.  Not modelled: identity/communications item contents, STRUCT/UDT data, generic service codes, zero-element payloads (cpppo cannot parse them).',
+   technique='Coq proof by construction (verified parser/printer combinators) + model/implementation correspondence', design='6 C01'),
 }
 PENDING = {}
 ALL = ['C%02d' % i for i in range(1, 21)]
